@@ -426,6 +426,39 @@ func cmdCheck(args []string) int {
 		r.Obls = keep
 	}
 
+	// A known finding is identified by its exact obligation id. Harmless edits renumber returns and back edges;
+	// so that they do not turn a recorded defect into an alarm, a failing obligation of the same clause of the same
+	// function also counts as that finding as long as the clause does not fail on more paths than are recorded.
+	knownPerClause := map[string][]KnownFinding{}
+	for _, k := range known {
+		if k.Status == "known" {
+			knownPerClause[clauseKey(k.Obligation)] = append(knownPerClause[clauseKey(k.Obligation)], k)
+		}
+	}
+	failingPerClause := map[string]int{}
+	for _, r := range results {
+		for _, o := range r.Obls {
+			if o.Kind != "cover" && !o.OK() {
+				failingPerClause[clauseKey(o.ID)]++
+			}
+		}
+	}
+	for _, r := range results {
+		for _, o := range r.Obls {
+			if o.Kind == "cover" || o.OK() {
+				continue
+			}
+			if _, exact := knownByObl[o.ID]; exact {
+				continue
+			}
+			ck := clauseKey(o.ID)
+			if ks := knownPerClause[ck]; len(ks) > 0 && failingPerClause[ck] <= len(ks) {
+				k := ks[0]
+				k.What += " (recorded as " + k.Obligation + "; paths renumbered)"
+				knownByObl[o.ID] = k
+			}
+		}
+	}
 	baseline := loadBaseline(prop)
 	baselineKeys := map[string]bool{}
 	for id := range baseline {
